@@ -33,6 +33,7 @@ type toks = { v : Stdlib.String.t array; mutable i : int }
 let held : (int, int * int) Hashtbl.t = Hashtbl.create 8
 (* objects of the attributed string class (Z lines) *)
 let tstrings : (int, element list) Hashtbl.t = Hashtbl.create 8
+let arm2 : (int, bool) Hashtbl.t = Hashtbl.create 8
 let num t = let x = int_of_string t.v.(t.i) in t.i <- t.i + 1; x
 let str t = let x = t.v.(t.i) in t.i <- t.i + 1; x
 let split line = Array.of_list (List.filter (fun s -> s <> "") (String.split_on_char ' ' line))
@@ -147,7 +148,7 @@ let model_line out w line =
     match str t with
     | s when s.[0] = '#' -> ()
     | "CASE" -> Hashtbl.reset w.terms; Hashtbl.reset w.canvases; Hashtbl.reset w.screens; Hashtbl.reset w.parsers;
-        Hashtbl.reset tstrings; Hashtbl.reset held
+        Hashtbl.reset tstrings; Hashtbl.reset held; Hashtbl.reset arm2
     | "END" -> ()
     | "T" ->
         let id = num t in
@@ -158,7 +159,23 @@ let model_line out w line =
         else begin
           let tm = Hashtbl.find w.terms id in
           let bytes =
-            if name = "arm" then (tm.armed <- true; [])
+            if name = "arm" then (tm.armed <- true; Hashtbl.replace arm2 id false; [])
+            else if name = "arm2" then (tm.armed <- true; Hashtbl.replace arm2 id true; [])
+            else if name = "alive" then (let b = num t in out (Printf.sprintf "AL %d" (if b <> 0 then 1 else 0)); [])
+            else if name = "recvq" then begin
+              let n = num t in
+              let ds = List.init n (fun _ -> unhex (str t)) in
+              if tm.armed then begin
+                let lines = List.map (fun data ->
+                  let (ps', toks) = deliver tm.ps data in
+                  tm.ps <- ps';
+                  Printf.sprintf "CB %d%s" (List.length toks)
+                    (String.concat "" (List.map (fun k -> " | " ^ pr_token k) toks))) ds in
+                (* a client that re-arms before looking at its tokens finishes the
+                   callbacks of the later deliveries first *)
+                let lines = if (try Hashtbl.find arm2 id with Not_found -> false) then List.rev lines else lines in
+                List.iter out lines
+              end; [] end
             else if name = "recv" then begin
               let data = unhex (str t) in
               if tm.armed then begin
@@ -485,6 +502,26 @@ let expand_mode () =
       Printf.printf "# ITEMS %d wf=%d\n" (List.length its) (if ok then 1 else 0);
       List.iter (fun it -> Printf.printf "# EXPECT %s\n" (pr_token (tok it))) its;
       Printf.printf "T %s recv %s\n" id (hex (enc_all its))
+    end else if Array.length t.v >= 5 && t.v.(0) = "T" && t.v.(2) = "itemsplit" then begin
+      (* T id itemsplit <cut> <between|-> IT ... : the items' bytes delivered in two
+         reads cut after <cut> bytes (modulo the length), with the terminal operation
+         <between> (words joined by '_') issued between the two reads *)
+      let id = t.v.(1) in
+      let cut = int_of_string t.v.(3) in
+      let between = t.v.(4) in
+      t.i <- 5;
+      let its = parse_items t [] in
+      let ok = List.for_all wf_item its && adjacency_ok its in
+      let bs = enc_all its in
+      let n = List.length bs in
+      let k = if n = 0 then 0 else cut mod (n + 1) in
+      let rec take i l = if i = 0 then [] else match l with [] -> [] | x :: r -> x :: take (i - 1) r in
+      let rec drop i l = if i = 0 then l else match l with [] -> [] | _ :: r -> drop (i - 1) r in
+      Printf.printf "# ITEMS %d wf=%d split\n" (List.length its) (if ok then 1 else 0);
+      List.iter (fun it -> Printf.printf "# EXPECT %s\n" (pr_token (tok it))) its;
+      Printf.printf "T %s recv %s\n" id (hex (take k bs));
+      if between <> "-" then Printf.printf "T %s %s\n" id (String.concat " " (String.split_on_char '_' between));
+      Printf.printf "T %s recv %s\n" id (hex (drop k bs))
     end else print_endline line
   done with End_of_file -> ())
 
